@@ -73,7 +73,16 @@ func (s *Stats) Add(k string, n int64) {
 	}
 	s.mu.Unlock()
 }
-func (s *Stats) Exclude(key string) { s.mu.Lock(); if !s.frozen { s.Excluded[key]++ }; s.mu.Unlock() }
+func (s *Stats) Exclude(key string) {
+	if s == nil {
+		return
+	}
+	s.mu.Lock()
+	if !s.frozen {
+		s.Excluded[key]++
+	}
+	s.mu.Unlock()
+}
 func (s *Stats) Note(f string, a ...interface{}) {
 	s.mu.Lock()
 	if len(s.Notes) < 50 {
